@@ -183,6 +183,24 @@ def evaluatingStep (inputDim : Nat) (designs : List Vec) (vals : List Rat) (q : 
   let cand := (optimizeDiscrete vals q).filterMap (fun p => designs[p.1]?)
   (cand, gpAddSample inputDim data cand (cand.map observe))
 
+/-- One `evaluating()` step of a decoupled GP algorithm (PaVeBaPartialGP, DecoupledGP): the
+selected (row, objective) pairs, and the per-objective stores after `add_sample(candidates,
+observations, eval_indices)`.  `observe x j` is the problem's answer for objective `j` of row `x`. -/
+def evaluatingStepDecoupled (inputDim : Nat) (designs : List Vec) (table : List (List Rat)) (q : Nat)
+    (observe : Vec → Nat → Rat) (stores : List (List (Vec × Rat))) :
+    List (Vec × Nat) × Option (List (List (Vec × Rat))) :=
+  let cand := (optimizeDecoupled table q).filterMap
+    (fun e => (designs[e.pos]?).map (fun x => (x, e.obj)))
+  (cand, listAddSample inputDim stores (cand.map (·.1)) (cand.map (fun c => observe c.1 c.2))
+    (cand.map (·.2)))
+
+/-- One `evaluating()` step of PaVeBa / Auer: every active design is observed once and the
+observation is stored under that design (`observe i` = the problem's answer for design `i`). -/
+def evaluateAllStep (S U : List Nat) (observe : Nat → Vec) (samples : List (List Vec)) :
+    Option (List (List Vec)) :=
+  let A := evaluateAll S U
+  empAddSample samples A (A.map observe)
+
 /-! ## Decidable specification relations checked on the implementation's output -/
 
 /-- Relation (R) for `optimize_acqf_discrete`'s output, as (original position, value) pairs in pick
